@@ -845,6 +845,40 @@ def _one_case(ctx, spec, i, cfg, tmp):
             return
     ctx.count("load_roundtrips")
 
+    # ---- a file whose informative `mixing_matrix` entry is stale (documented: "not a real parameter, its value will be overwritten at
+    # model loading"): it loads, and into the same model as the file without the stale entry --------------------------------------------
+    if stateful and isinstance(J.get("parameters"), dict) and "mixing_matrix" in J["parameters"] and (case["index"] % 3 == 0):
+        try:
+            import copy as _copy
+
+            import numpy as np
+            import torch
+
+            Js = _copy.deepcopy(J)
+            mm = np.asarray(Js["parameters"]["mixing_matrix"], dtype=float)
+            Js["parameters"]["mixing_matrix"] = (np.round(mm, 1) + 0.37).tolist()
+            fs = os.path.join(tmp, "m1-stale-mixing-matrix.json")
+            with open(fs, "w") as fp:
+                json.dump(Js, fp, indent=2)
+            ctx.count("loads_of_files_with_a_stale_mixing_matrix")
+            try:
+                ms = BaseModel.load(fs)
+            except Exception as e:
+                viol("load/stale-mixing-matrix-entry-refused", f"a file whose informative mixing_matrix entry does not match its parameters is refused "
+                     f"({type(e).__name__}: {str(e)[:160]}); documented: that entry is overwritten at loading")
+                ms = None
+            if ms is not None:
+                for pn_, v_ in m2.parameters.items():
+                    if pn_ in ms.parameters and not torch.equal(torch.as_tensor(ms.parameters[pn_]), torch.as_tensor(v_)):
+                        viol("load/stale-mixing-matrix-entry-changes-the-model", f"parameter '{pn_}' differs between the loads of the file with and without a stale mixing_matrix entry")
+                        break
+                else:
+                    a_, b_ = ms.state["mixing_matrix"], m2.state["mixing_matrix"]
+                    if not torch.allclose(a_.double(), b_.double(), rtol=1e-6, atol=1e-7):
+                        viol("load/stale-mixing-matrix-entry-changes-the-model", "the mixing matrix of the loaded model follows the stale file entry, not the parameters")
+        except Exception as e:
+            ctx.note(f"stale_mixing_matrix_block_skipped_{type(e).__name__}", str(e)[:160])
+
     # ---- (b) -------------------------------------------------------------------------
     same = _roundtrip_compare(ctx, case, m, m2, probe, viol, name_expected)
     if stateful and same:
